@@ -567,6 +567,10 @@ class Evaluator:
             return self._join(c, t, e)
         if k == "Match":
             return self._match(n, env, st)
+        if k in ("Assign", "AssignOp"):
+            # an assignment in expression position (match arm, closure body)
+            self._stmt(n, env, st)
+            return ("tup", [])
         if k == "MethodCall":
             return self._method(n, env, st)
         if k == "Call":
@@ -752,8 +756,17 @@ class Evaluator:
                 probe = dict(env)
                 m = self._match_pat(arm["pat"], sc, probe)
                 if m is True and not arm.get("guard"):
+                    # pattern bindings are scoped to the arm; assignments to outer locals persist
+                    bound = {k2: env.get(k2, _MISSING) for k2 in probe if k2 not in env or probe[k2] is not env[k2]}
                     env.update(probe)
-                    return self.eval(arm["body"], env, st)
+                    try:
+                        return self.eval(arm["body"], env, st)
+                    finally:
+                        for k2, old in bound.items():
+                            if old is _MISSING:
+                                env.pop(k2, None)
+                            else:
+                                env[k2] = old
                 if m is not False:
                     break
         if self.name_case is not None and n["scrut"].get("k") == "Tup":
